@@ -1,3 +1,18 @@
+mod c10;
+mod c11;
+mod c12;
+mod c13;
+mod c14;
+mod kes;
+
+use pvkit::session::CheckDef;
+
 fn main() {
-    pvkit::main(&[]);
+    pvkit::main(&[
+        CheckDef { id: "C10", level: "exploration", run: c10::run },
+        CheckDef { id: "C11", level: "exploration", run: c11::run },
+        CheckDef { id: "C12", level: "exploration", run: c12::run },
+        CheckDef { id: "C13", level: "exploration", run: c13::run },
+        CheckDef { id: "C14", level: "exploration", run: c14::run },
+    ]);
 }
